@@ -1578,6 +1578,11 @@ pub fn array_reduce_right(
         (elem, length as i64 - 2)
     };
 
+    // Guard callback, array and the running accumulator across the callback calls
+    let _callback_guard = interp.guard_value(&callback);
+    let _arr_guard = interp.guard_value(&this);
+    let mut acc_guard = interp.guard_value(&accumulator);
+
     for i in (0..=start_index).rev() {
         let elem = arr
             .borrow()
@@ -1585,7 +1590,7 @@ pub fn array_reduce_right(
             .unwrap_or(JsValue::Undefined);
         let Guarded {
             value: result,
-            guard: _result_guard,
+            guard: new_guard,
         } = interp.call_function(
             callback.clone(),
             JsValue::Undefined,
@@ -1597,10 +1602,13 @@ pub fn array_reduce_right(
             ],
         )?;
         accumulator = result;
+        acc_guard = new_guard.or_else(|| interp.guard_value(&accumulator));
     }
 
-    // Accumulator is a derived value - no guard needed
-    Ok(Guarded::unguarded(accumulator))
+    Ok(Guarded {
+        value: accumulator,
+        guard: acc_guard,
+    })
 }
 
 pub fn array_flat(
